@@ -34,6 +34,16 @@ UnixBuild(r) ==
     ELSE IF r.size = 0 \/ (r.kind = "file" /\ r.foff % PG # 0) THEN Err("Mmap")
     ELSE Ok([size |-> r.size, owned |-> TRUE])
 
+\* every refusal that applies to a request; the code reports the first one its checks meet, another order of the same
+\* checks is as good (the property names the refusals, not their precedence)
+UnixErrSet(r) ==
+    IF r.kind = "raw" THEN (IF r.misalign # 0 THEN {"InvalidPointer"} ELSE {})
+    ELSE LET ovf == r.kind = "file" /\ CheckedAdd(r.foff, r.size) = NONE IN
+         (IF r.fixed THEN {"MapFixed"} ELSE {})
+         \cup (IF ovf THEN {"InvalidOffsetLength"} ELSE {})
+         \cup (IF r.kind = "file" /\ ~ovf /\ r.flen < r.foff + r.size THEN {"MappingPastEof"} ELSE {})
+         \cup (IF r.size = 0 \/ (r.kind = "file" /\ r.foff % PG # 0) THEN {"Mmap"} ELSE {})
+
 \* ---- Xen build ------------------------------------------------------------------
 \* mapping-type flag word bits: FOREIGN = 1, GRANT = 2, NO_ADVANCE_MAP = 8; anything else is unknown
 Bit(f, b) == (f \div b) % 2 = 1
@@ -64,6 +74,22 @@ XenBuild(r) ==
     ELSE IF r.size = 0 \/ (r.file /\ r.foff % PG # 0) THEN Err("Mmap")
     ELSE Ok([size |-> r.size, xflags |-> 0])
 
+XenErrSet(r) ==
+    LET ovf == r.file /\ CheckedAdd(r.foff, r.size) = NONE
+        badflags == ~Known(r.mflags) \/ ~ImplValid(r.mflags) IN
+    (IF r.fixed THEN {"MapFixed"} ELSE {})
+    \cup (IF badflags THEN {"MmapFlags"} ELSE {})
+    \cup (IF ~badflags /\ r.mflags # 0
+          THEN (IF ~r.file THEN {"InvalidFileOffset"} ELSE {})
+               \cup (IF r.file /\ r.foff # 0 THEN {"InvalidOffsetLength"} ELSE {})
+               \cup (IF (r.mflags = 1 /\ r.fail = "foreign") \/ (r.mflags = 2 /\ r.fail = "map") \/ (r.size = 0 /\ r.mflags # 10) THEN {"Mmap"} ELSE {})
+          ELSE {})
+    \cup (IF ~badflags /\ r.mflags = 0
+          THEN (IF ovf THEN {"InvalidOffsetLength"} ELSE {})
+               \cup (IF r.file /\ ~ovf /\ r.flen < r.foff + r.size THEN {"MappingPastEof"} ELSE {})
+               \cup (IF r.size = 0 \/ (r.file /\ r.foff % PG # 0) THEN {"Mmap"} ELSE {})
+          ELSE {})
+
 \* ---- giving a mapping its guest range (both builds) ---------------------------------------
 \* GuestRegionMmap::new(mapping, base): refused when base + size lies beyond the address space - and then the mapping,
 \* handed over by value, goes away with the refusal.  A range ending exactly at 2^64 (its last byte is the last address)
@@ -87,6 +113,10 @@ ExactlySafe ==
     ELSE /\ UnsafeXen(req.r) => XenBuild(req.r).k = "err"
          /\ (~UnsafeXen(req.r) /\ req.r.fail = "" /\ req.r.size # 0 /\ (req.r.mflags = 0 => req.r.foff % PG = 0))
                => XenBuild(req.r).k = "ok"
+\* the code-shaped decisions pick their refusal from the applicable ones, and accept exactly when none applies
+ErrInSet == IF req.b = "unix"
+            THEN LET x == UnixBuild(req.r) IN (x.k = "ok" <=> UnixErrSet(req.r) = {}) /\ (x.k = "err" => x.e \in UnixErrSet(req.r))
+            ELSE LET x == XenBuild(req.r) IN (x.k = "ok" <=> XenErrSet(req.r) = {}) /\ (x.k = "err" => x.e \in XenErrSet(req.r))
 FlagTable == \A f \in 0 .. 31 : (Known(f) /\ ImplValid(f)) <=> ValidXen(f)
 BuildsWhatWasAsked == (req.b = "unix" /\ UnixBuild(req.r).k = "ok") => UnixBuild(req.r).size = req.r.size
 =============================================================================
